@@ -773,7 +773,10 @@ func (p *Parser) parseDotExp(left ast.Expression) ast.Expression {
 		Left:  left,
 	}
 
-	if !p.expectPeek(token.IDENT) { // skip "." and move to identifier
+	// a keyword after the dot is a name like any other: x.in, x.nil
+	if p.peekTokenIs(token.TRUE, token.FALSE, token.NIL, token.IN) {
+		p.nextToken() // skip "." and move to the name
+	} else if !p.expectPeek(token.IDENT) { // skip "." and move to identifier
 		return nil
 	}
 
